@@ -78,6 +78,15 @@ def h2(cx):
     wr = [c for c in own_nodes(f) if isinstance(c, ast.Call) and call_name(c) == "setattr" and len(c.args) == 3 and norm(c.args[0]) == "container._xobject"]
     cx.check(len(wr) == 2 and all(norm(c.args[1]) == "self.name" for c in wr), wr[0] if wr else f, construct="setattr(container._xobject, self.name, <value>) on both arms", detail="assignment goes through the struct field (copy for plain fields, reference for Ref fields)",
              bad_detail="an assignment arm does not write the container's struct field", sub="write")
+    # cross-buffer reference assignment is refused, before the struct field is written
+    raises = [r for r in own_nodes(f) if isinstance(r, ast.Raise)]
+    hit = None
+    for r in raises:
+        txt = " & ".join(c.text() for c in fl.conds_at(r) if c.kind == "if")
+        if "Ref)" in txt and ("value._buffer is not container._buffer" in txt or "value._buffer != container._buffer" in txt):
+            hit = r
+    cx.check(hit is not None and all(fl.ordered_before(hit, w) or not fl.may_follow(w, hit) for w in wr), hit or f, construct="Ref field and value in another buffer -> raise MemoryError, before any write",
+             detail="sharing across buffers is refused (a reference cannot leave its buffer)", bad_detail="assigning a hybrid object of another buffer to a reference field is not refused (a silent copy is referenced instead)", sub="refuse")
     # reinit
     r = m.func(f"{HC}._reinit_from_xobject")
     src = norm(r)
